@@ -15,7 +15,6 @@ import (
 	"flag"
 	"fmt"
 	"go/ast"
-	"go/importer"
 	"go/parser"
 	"go/token"
 	"go/types"
@@ -25,9 +24,79 @@ import (
 	"strings"
 )
 
+const modulePath = "github.com/pion/webrtc/v4"
+
 type fakeImporter struct {
-	src   types.Importer
 	cache map[string]*types.Package
+	repo  string
+	fset  *token.FileSet
+	info  *types.Info
+	// files of the module's packages that were loaded from source, in load order
+	loaded []*loadedPkg
+	busy   map[string]bool
+}
+
+type loadedPkg struct {
+	path  string
+	name  string
+	files []*ast.File
+}
+
+// goFiles parses the non-test, non-js, non-verif files of dir.
+func goFiles(fset *token.FileSet, dir string) []*ast.File {
+	files := []*ast.File{}
+	matches, _ := filepath.Glob(filepath.Join(dir, "*.go"))
+	sort.Strings(matches)
+	for _, m := range matches {
+		base := filepath.Base(m)
+		if strings.HasSuffix(base, "_test.go") || strings.HasSuffix(base, "_js.go") || strings.HasPrefix(base, "verif_") ||
+			base == "js_utils.go" {
+			continue
+		}
+		f, err := parser.ParseFile(fset, m, nil, parser.SkipObjectResolution)
+		if err != nil {
+			fmt.Fprintln(os.Stderr, err)
+			os.Exit(2)
+		}
+		// honour //go:build js files
+		skip := false
+		for _, cg := range f.Comments {
+			if cg.Pos() > f.Package {
+				break
+			}
+			for _, c := range cg.List {
+				if strings.HasPrefix(c.Text, "//go:build") && strings.Contains(c.Text, "js") && !strings.Contains(c.Text, "!js") {
+					skip = true
+				}
+			}
+		}
+		if !skip {
+			files = append(files, f)
+		}
+	}
+
+	return files
+}
+
+// load type-checks one package of the module from source (its own imports of the module recurse
+// through Import), so that calls across package boundaries resolve to the analysed declarations.
+func (f *fakeImporter) load(path string) *types.Package {
+	dir := filepath.Join(f.repo, strings.TrimPrefix(strings.TrimPrefix(path, modulePath), "/"))
+	files := goFiles(f.fset, dir)
+	if len(files) == 0 {
+		return nil
+	}
+	f.busy[path] = true
+	conf := types.Config{Importer: f, Error: func(error) {}}
+	pkg, _ := conf.Check(path, f.fset, files, f.info)
+	delete(f.busy, path)
+	if pkg == nil {
+		return nil
+	}
+	f.cache[path] = pkg
+	f.loaded = append(f.loaded, &loadedPkg{path: path, name: pkg.Name(), files: files})
+
+	return pkg
 }
 
 func (f *fakeImporter) Import(path string) (*types.Package, error) {
@@ -39,6 +108,11 @@ func (f *fakeImporter) Import(path string) (*types.Package, error) {
 		f.cache[path] = p
 
 		return p, nil
+	}
+	if (path == modulePath || strings.HasPrefix(path, modulePath+"/")) && !f.busy[path] {
+		if p := f.load(path); p != nil {
+			return p, nil
+		}
 	}
 	name := path[strings.LastIndex(path, "/")+1:]
 	if strings.HasPrefix(name, "v") && len(name) <= 3 { // …/v4
@@ -101,6 +175,16 @@ func deref(t types.Type) types.Type {
 	}
 }
 
+// typeName names a struct type: bare for package webrtc, pkg.Type for the module's other packages.
+func typeName(n *types.Named) string {
+	o := n.Obj()
+	if o.Pkg() == nil || o.Pkg().Path() == modulePath {
+		return o.Name()
+	}
+
+	return o.Pkg().Name() + "." + o.Name()
+}
+
 func isMutex(t types.Type) bool {
 	n, ok := deref(t).(*types.Named)
 	if !ok {
@@ -131,7 +215,7 @@ func (a *analyzer) lockCall(call *ast.CallExpr) (name, op string, ok bool) {
 	case *ast.SelectorExpr: // owner.field
 		if otv, ok2 := a.info.Types[x.X]; ok2 {
 			if n, ok3 := deref(otv.Type).(*types.Named); ok3 {
-				return n.Obj().Name() + "." + x.Sel.Name, op, true
+				return typeName(n) + "." + x.Sel.Name, op, true
 			}
 		}
 
@@ -206,8 +290,8 @@ type visitor struct {
 	a        *analyzer
 	fnName   string
 	deferred [][]string // per function-literal scope: locks released by deferred unlocks at scope end
-	acquire func(lock string, h held, pos token.Pos)
-	call    func(fn *types.Func, h held, pos token.Pos)
+	acquire  func(lock string, h held, pos token.Pos)
+	call     func(fn *types.Func, h held, pos token.Pos)
 }
 
 func (v *visitor) exprs(n ast.Node, h held) {
@@ -417,43 +501,31 @@ func main() {
 	leanOut := flag.String("lean", "", "Lean output file")
 	jsonOut := flag.String("json", "", "JSON output file")
 	flag.Parse()
+	repoFlag = repo
 
 	fset := token.NewFileSet()
-	files := []*ast.File{}
-	matches, _ := filepath.Glob(filepath.Join(*repo, "*.go"))
-	sort.Strings(matches)
-	for _, m := range matches {
-		base := filepath.Base(m)
-		if strings.HasSuffix(base, "_test.go") || strings.HasSuffix(base, "_js.go") || strings.HasPrefix(base, "verif_") ||
-			base == "js_utils.go" {
-			continue
-		}
-		f, err := parser.ParseFile(fset, m, nil, parser.SkipObjectResolution)
-		if err != nil {
-			fmt.Fprintln(os.Stderr, err)
-			os.Exit(2)
-		}
-		// honour //go:build js files
-		skip := false
-		for _, cg := range f.Comments {
-			if cg.Pos() > f.Package {
-				break
-			}
-			for _, c := range cg.List {
-				if strings.HasPrefix(c.Text, "//go:build") && strings.Contains(c.Text, "js") && !strings.Contains(c.Text, "!js") {
-					skip = true
-				}
-			}
-		}
-		if !skip {
-			files = append(files, f)
-		}
-	}
 	info := &types.Info{Types: map[ast.Expr]types.TypeAndValue{}, Uses: map[*ast.Ident]types.Object{}, Defs: map[*ast.Ident]types.Object{},
 		Selections: map[*ast.SelectorExpr]*types.Selection{}}
-	conf := types.Config{Importer: &fakeImporter{src: importer.ForCompiler(fset, "source", nil), cache: map[string]*types.Package{}},
-		Error: func(error) {}}
-	_, _ = conf.Check("github.com/pion/webrtc/v4", fset, files, info)
+	imp := &fakeImporter{cache: map[string]*types.Package{}, repo: *repo, fset: fset, info: info, busy: map[string]bool{}}
+	_, _ = imp.Import(modulePath)
+	// the module's other packages (internal/mux, pkg/media/…): those the root does not import are roots too
+	for _, top := range []string{"internal", "pkg"} {
+		_ = filepath.Walk(filepath.Join(*repo, top), func(p string, fi os.FileInfo, err error) error {
+			if err == nil && fi.IsDir() {
+				rel, _ := filepath.Rel(*repo, p)
+				_, _ = imp.Import(modulePath + "/" + filepath.ToSlash(rel))
+			}
+
+			return nil
+		})
+	}
+	files := []*ast.File{}
+	pkgList := []string{}
+	for _, lp := range imp.loaded {
+		files = append(files, lp.files...)
+		pkgList = append(pkgList, strings.TrimPrefix(strings.TrimPrefix(lp.path, modulePath), "/"))
+	}
+	sort.Strings(pkgList)
 
 	a := &analyzer{fset: fset, info: info, funcs: map[*types.Func]*ast.FuncDecl{}, acquires: map[*types.Func]map[string]bool{},
 		edges: map[[2]string]string{}, rw: map[string]bool{}}
@@ -595,8 +667,25 @@ func main() {
 			}
 		}
 	}
+	// lock discipline: access table, specification, violations
+	accs, owners := runGuards(a, files)
+	specs := guardSpecs()
+	bad := guardViolations(accs, specs)
+	specMiss := []string{} // a specified field that is never accessed is a typo in the specification
+	for _, sp := range specs {
+		hit := false
+		for _, ac := range accs {
+			if ac.Type == sp.Type && ac.Field == sp.Field {
+				hit = true
+			}
+		}
+		if !hit {
+			specMiss = append(specMiss, sp.Type+"."+sp.Field)
+		}
+	}
 	if *jsonOut != "" {
-		b, _ := json.MarshalIndent(map[string]any{"locks": names, "edges": es, "rank": rank, "functions": len(a.funcs)}, "", " ")
+		b, _ := json.MarshalIndent(map[string]any{"locks": names, "edges": es, "rank": rank, "functions": len(a.funcs), "packages": pkgList,
+			"guard_owners": owners, "accesses": accs, "guard_spec": specs, "guard_violations": bad, "guard_spec_unused": specMiss}, "", " ")
 		_ = os.WriteFile(*jsonOut, b, 0o644)
 	}
 	if *leanOut != "" {
@@ -624,10 +713,146 @@ func main() {
 			}
 			fmt.Fprintf(&sb, "%d", x)
 		}
-		sb.WriteString("]\n\nend WebrtcVerif.Generated.LockGraph\n")
+		sb.WriteString("]\n\n")
+		writeGuardsLean(&sb, accs, owners, specs)
+		sb.WriteString("end WebrtcVerif.Generated.LockGraph\n")
 		_ = os.WriteFile(*leanOut, []byte(sb.String()), 0o644)
 	}
 	for _, e := range es {
 		fmt.Printf("%s -> %s   [%s]\n", e.From, e.To, e.Where)
 	}
+	for _, b := range bad {
+		fmt.Printf("UNGUARDED %s.%s kind=%s in %s (%s) held=%v\n", b.Type, b.Field, b.Kind, b.Func, b.Pos, b.Held)
+	}
+}
+
+func leanStrList(sb *strings.Builder, xs []string) {
+	sb.WriteString("[")
+	for i, x := range xs {
+		if i > 0 {
+			sb.WriteString(", ")
+		}
+		fmt.Fprintf(sb, "%q", x)
+	}
+	sb.WriteString("]")
+}
+
+func leanNatList(sb *strings.Builder, xs []int) {
+	sb.WriteString("[")
+	for i, x := range xs {
+		if i > 0 {
+			sb.WriteString(", ")
+		}
+		fmt.Fprintf(sb, "%d", x)
+	}
+	sb.WriteString("]")
+}
+
+// writeGuardsLean emits the access table and the specification. Fields and guard relations are numbered
+// (index into fieldNames / guardNames) so that the Lean check is arithmetic on small numbers.
+func writeGuardsLean(sb *strings.Builder, accs []*access, owners []string, specs []guardSpec) {
+	kindID := map[string]int{"r": 0, "w": 1, "c": 2}
+	fieldIdx, guardIdx := map[string]int{}, map[string]int{}
+	fields, guards := []string{}, []string{}
+	fid := func(s string) int {
+		if i, ok := fieldIdx[s]; ok {
+			return i
+		}
+		fieldIdx[s] = len(fields)
+		fields = append(fields, s)
+
+		return len(fields) - 1
+	}
+	gid := func(s string) int {
+		if i, ok := guardIdx[s]; ok {
+			return i
+		}
+		guardIdx[s] = len(guards)
+		guards = append(guards, s)
+
+		return len(guards) - 1
+	}
+	type row struct {
+		f, k  int
+		fresh bool
+		held  []int
+		site  string
+	}
+	rows := []row{}
+	for _, sp := range specs { // the specification's names first, so their numbers do not move with the code
+		fid(sp.Type + "." + sp.Field)
+		for _, g := range sp.AnyOf {
+			gid(g)
+		}
+	}
+	specTypes := map[string]bool{}
+	for _, sp := range specs {
+		specTypes[sp.Type] = true
+	}
+	others := []row{} // accesses to structs the specification says nothing about: data only
+	for _, a := range accs {
+		r := row{f: fid(a.Type + "." + a.Field), k: kindID[a.Kind], fresh: a.Fresh, site: a.Func + " @ " + a.Pos}
+		for _, h := range a.Held {
+			r.held = append(r.held, gid(h))
+		}
+		if specTypes[a.Type] {
+			rows = append(rows, r)
+		} else {
+			others = append(others, r)
+		}
+	}
+	sb.WriteString("/-- struct types that own a sync.Mutex / sync.RWMutex field -/\ndef guardOwners : List String := ")
+	leanStrList(sb, owners)
+	sb.WriteString("\n\n/-- `Type.field` names; a field id is an index into this list -/\ndef fieldNames : List String := ")
+	leanStrList(sb, fields)
+	sb.WriteString("\n\n/-- guard relations `self:<lock>/<mode>`, `via <path>:<lock>/<mode>`, `other:<lock>/<mode>`; a guard id is an index into this list -/\ndef guardNames : List String := ")
+	leanStrList(sb, guards)
+	table := func(name, doc string, rs []row) {
+		sb.WriteString("\n\n/-- " + doc + " -/\ndef " + name + " : List (Nat × Nat × Bool × List Nat) := [")
+		for i, r := range rs {
+			if i > 0 {
+				sb.WriteString(",\n  ")
+			}
+			fmt.Fprintf(sb, "(%d, %d, %v, ", r.f, r.k, r.fresh)
+			leanNatList(sb, r.held)
+			sb.WriteString(")")
+		}
+		sb.WriteString("]\n\n/-- where each row of `" + name + "` is: `function @ file:line` (same order) -/\ndef " + name + "Sites : List String := [")
+		for i, r := range rs {
+			if i > 0 {
+				sb.WriteString(",\n  ")
+			}
+			fmt.Fprintf(sb, "%q", r.site)
+		}
+		sb.WriteString("]")
+	}
+	table("accesses", "every syntactic access, in every function of the analysed packages, to a field of the struct types the\n"+
+		"    specification names (ALL their fields, listed or not): (field id, kind 0 = read / 1 = write / 2 = method call on the\n"+
+		"    field's value or on a local copy of it, base object created in this function and not yet shared, guard ids that\n"+
+		"    MUST be held at the access)", rows)
+	table("otherAccesses", "the same table for the remaining mutex-owning structs (PeerConnection, RTPSender, …): data for the reader,\n"+
+		"    no theorem speaks about it", others)
+	sb.WriteString("\n\n/-- the guarded-field specification: (field id, kind, guard ids of which one must be held) -/\ndef guardSpec : List (Nat × Nat × List Nat) := [")
+	for i, sp := range specs {
+		if i > 0 {
+			sb.WriteString(", ")
+		}
+		ids := []int{}
+		for _, g := range sp.AnyOf {
+			ids = append(ids, gid(g))
+		}
+		fmt.Fprintf(sb, "(%d, %d, ", fid(sp.Type+"."+sp.Field), kindID[sp.Kind])
+		leanNatList(sb, ids)
+		sb.WriteString(")")
+	}
+	sb.WriteString("]\n\n/-- the same specification in words (pinned by C40_guard_spec_pinned) -/\ndef guardSpecText : List (String × Nat × List String) := [")
+	for i, sp := range specs {
+		if i > 0 {
+			sb.WriteString(",\n  ")
+		}
+		fmt.Fprintf(sb, "(%q, %d, ", sp.Type+"."+sp.Field, kindID[sp.Kind])
+		leanStrList(sb, sp.AnyOf)
+		sb.WriteString(")")
+	}
+	sb.WriteString("]\n\n")
 }
